@@ -520,6 +520,7 @@ func cmdCheck(args []string) {
 	}
 	if selftestRun {
 		// result line only: the evidence of the real tree is not touched
+		os.RemoveAll(outDir)
 		fmt.Printf("owvc: selftest run on %s: %d obligations, %d discharged, %d violations\n", repoRoot, nObl, nDis, len(viol))
 		for _, v := range viol {
 			fmt.Printf("VIOLATION property=%s replay=%s\n", id, v.replay)
@@ -542,6 +543,10 @@ func cmdCheck(args []string) {
 	b, _ := json.MarshalIndent(ev, "", " ")
 	writeFile(filepath.Join(verifRoot, "evidence", id+".json"), string(b)+"\n")
 
+	// the SMT queries of a run are scratch (a violation's query is kept in its replay file)
+	if os.Getenv("OWVC_KEEP_QUERIES") == "" {
+		os.RemoveAll(outDir)
+	}
 	fmt.Printf("owvc: property %s tier %s: %d obligations, %d discharged, %d known findings, %d vacuity covers (%d sat), %d functions, %.1fs\n",
 		id, *tier, nObl, nDis, nKnown, nCover, nCoverOK, len(funcs), wall)
 	if len(viol) > 0 {
